@@ -23,6 +23,7 @@ package state
 //@ func SequenceHandler.Reset
 //@   modifies sh.highest, sh.outSeq.v, sh.lock
 //@   update when true: reset sh.seen
+//@   update when true: reset sh.issued
 //@   ensures zero: sh.highest == 0 && sh.outSeq.v == 0
 
 //@ func SequenceHandler.RolloverRequired
